@@ -51,6 +51,9 @@ def scenarios(quick: bool) -> List[Scenario]:
         Scenario("rd-shared-handle", [A("c1", "committer", [{"t": "append"}, {"t": "delete", "refs": [("init", 1)]}], handle="h"),
                                       A("r1", "reader", [{"t": "read", "api": "scan", "verify": False}, {"t": "read", "api": "scan"}], handle="h")]),
     ]
+    # an EMPTY table: the reader races the table's first commit (no current snapshot -> first snapshot)
+    s.append(Scenario("rd-vs-first-commit", [A("c1", "committer", [{"t": "append"}]),
+                                             A("r1", "reader", [{"t": "read", "api": "scan"}, {"t": "read", "api": "count"}, {"t": "read", "api": "batches"}])], init_snaps=0))
     if not quick:
         s += [
             Scenario("rd-all-apis", [A("c1", "committer", [{"t": "append", "n": 2}, {"t": "delete", "refs": [("init", 1)]}]), A("r1", "reader", reads_all)]),
